@@ -317,6 +317,12 @@ func rsemScenario(c *Ctx, sh *shard, scen int) {
 	cfg := bs.DefaultBloomSearchEngineConfig()
 	cfg.Tokenizer = tk.fn
 	cfg.MinMaxIndexes = []string{"n"}
+	// a second configured key, listed first, under which no row ever holds a number (strings, booleans, null,
+	// absent): it never becomes block metadata, and it must not get in the way of indexing "n"
+	inertKey := c.chance(0.5)
+	if inertKey {
+		cfg.MinMaxIndexes = []string{"m0", "n"}
+	}
 	usePartition := (c.chance(0.6) || copyHeavy) && !rangeMerge
 	if usePartition {
 		cfg.PartitionFunc = func(row map[string]any) string { p, _ := row["p"].(string); return p }
@@ -454,6 +460,16 @@ func rsemScenario(c *Ctx, sh *shard, scen int) {
 			tr.vals["n"] = nv
 			if lo, hi, ok := bs.ConvertToMinMaxInt64(nv.v); ok {
 				near["n"] = append(near["n"], lo, hi)
+			}
+		}
+		if inertKey {
+			switch c.intn(4) {
+			case 0:
+				m["m0"] = "timeout"
+			case 1:
+				m["m0"] = c.chance(0.5)
+			case 2:
+				m["m0"] = nil
 			}
 		}
 		rows[i] = &e2eRow{id: i, tr: tr}
